@@ -405,7 +405,7 @@ func (x *Exec) step(st *State, fr *Frame, ins ssa.Instruction) {
 			ref := x.allocRef(st)
 			name, sort := x.opaqueHeap(et)
 			h := x.heapTerm(st, name, sort)
-			st.heaps[name] = mkStore(h, ref, x.tc.pack(x, x.tc.zero(x, et)))
+			x.setHeap(st, name, mkStore(h, ref, x.tc.pack(x, x.tc.zero(x, et))))
 			v := Value{K: KRef, T: ins.Type(), S: ref}
 			fr.regs[ins] = v
 			if ins.Comment != "" {
@@ -484,7 +484,7 @@ func (x *Exec) step(st *State, fr *Frame, ins ssa.Instruction) {
 		ref := x.allocRef(st)
 		pn, ps, _, _ := x.mapHeapNames(mt)
 		ph := x.heapTerm(st, pn, ps)
-		st.heaps[pn] = mkStore(ph, ref, "((as const (Array "+x.tc.sortOf(mt.Key())+" Bool)) false)")
+		x.setHeap(st, pn, mkStore(ph, ref, "((as const (Array "+x.tc.sortOf(mt.Key())+" Bool)) false)"))
 		x.setMapLen(st, ref, "0")
 		fr.regs[ins] = Value{K: KMap, T: ins.Type(), S: ref}
 	case *ssa.MakeChan:
@@ -511,7 +511,7 @@ func (x *Exec) step(st *State, fr *Frame, ins ssa.Instruction) {
 			mt := xv.T.Underlying().(*types.Map)
 			name, sort := x.iterHeap(mt.Key())
 			h := x.heapTerm(st, name, sort)
-			st.heaps[name] = mkStore(h, id, "((as const (Array "+x.tc.sortOf(mt.Key())+" Bool)) false)")
+			x.setHeap(st, name, mkStore(h, id, "((as const (Array "+x.tc.sortOf(mt.Key())+" Bool)) false)"))
 			fr.lastIter = id
 			fr.lastIterK = mt.Key()
 		}
@@ -548,7 +548,7 @@ func (x *Exec) step(st *State, fr *Frame, ins ssa.Instruction) {
 
 func (x *Exec) constArray(et types.Type) string {
 	ez := x.tc.pack(x, x.tc.zero(x, et))
-	return "((as const (Array Int " + x.tc.sortOf(et) + ")) " + ez + ")"
+	return constArrayTerm(x, "(Array Int "+x.tc.sortOf(et)+")", ez)
 }
 
 func (x *Exec) retag(st *State, v Value, t types.Type) Value {
@@ -570,7 +570,7 @@ func (x *Exec) toInt(st *State, v Value) string {
 	case KInt:
 		return v.S
 	case KBV8:
-		return mkB2I(v.S)
+		return x.b2iNamed(st, v.S)
 	case KOpaque:
 		return v.S
 	}
@@ -855,7 +855,7 @@ func (x *Exec) mapLenHeap() (string, string) { return "MLEN", "(Array Int Int)" 
 func (x *Exec) setMapLen(st *State, ref, n string) {
 	name, sort := x.mapLenHeap()
 	h := x.heapTerm(st, name, sort)
-	st.heaps[name] = mkStore(h, ref, n)
+	x.setHeap(st, name, mkStore(h, ref, n))
 }
 
 func (x *Exec) mapLen(st *State, ref string) string {
@@ -907,8 +907,8 @@ func (x *Exec) mapUpdate(st *State, m, k, v Value, pos token.Pos) {
 	was := mkSelect(mkSelect(ph, m.S), kt)
 	n := x.mapLen(st, m.S)
 	x.setMapLen(st, m.S, mkIte(was, n, mkAdd(n, "1")))
-	st.heaps[pn] = mkStore(ph, m.S, mkStore(mkSelect(ph, m.S), kt, tTrue))
-	st.heaps[vn] = mkStore(vh, m.S, mkStore(mkSelect(vh, m.S), kt, x.tc.pack(x, v)))
+	x.setHeap(st, pn, mkStore(ph, m.S, mkStore(mkSelect(ph, m.S), kt, tTrue)))
+	x.setHeap(st, vn, mkStore(vh, m.S, mkStore(mkSelect(vh, m.S), kt, x.tc.pack(x, v))))
 }
 
 func (x *Exec) mapDelete(st *State, m, k Value) {
@@ -919,7 +919,7 @@ func (x *Exec) mapDelete(st *State, m, k Value) {
 	was := mkAnd(mkNot(mkEq(m.S, "0")), mkSelect(mkSelect(ph, m.S), kt))
 	n := x.mapLen(st, m.S)
 	x.setMapLen(st, m.S, mkIte(was, mkSub(n, "1"), n))
-	st.heaps[pn] = mkStore(ph, m.S, mkStore(mkSelect(ph, m.S), kt, tFalse))
+	x.setHeap(st, pn, mkStore(ph, m.S, mkStore(mkSelect(ph, m.S), kt, tFalse)))
 }
 
 func (x *Exec) next(st *State, fr *Frame, ins *ssa.Next) Value {
@@ -945,7 +945,7 @@ func (x *Exec) next(st *State, fr *Frame, ins *ssa.Next) Value {
 	ph := x.heapTerm(st, pn, ps)
 	q := fmt.Sprintf("(forall ((k!q %s)) (=> (select (select %s %s) k!q) (select %s k!q)))", ks, ph, m.S, visited)
 	st.assume(mkImp(mkNot(ok), mkOr(mkEq(m.S, "0"), q)))
-	st.heaps[name] = mkStore(ih, it.S, mkIte(ok, mkStore(visited, kt, tTrue), visited))
+	x.setHeap(st, name, mkStore(ih, it.S, mkIte(ok, mkStore(visited, kt, tTrue), visited)))
 	kOut, vOut := kv, val
 	if _, isInvalid := tt.At(1).Type().(*types.Basic); isInvalid && tt.At(1).Type().(*types.Basic).Kind() == types.Invalid {
 		kOut = Value{K: KInt, T: tt.At(1).Type(), S: "0"}
